@@ -47,7 +47,7 @@ from harness.lib import coqbuild
 LEVEL = "proof"
 THEOREMS = ["C14_fail_closed", "C14_never_partial", "C14_not_empty", "C14_checksum", "C14_untouched",
             "C14_row_count_metadata_only", "C14_history_independent", "C14_checksum_survives_history", "C14_no_check_use_gap", "C14_list_fields_without_read_meaning",
-            "C14_recovery_listing_fails_closed", "C14_healthy_ok",
+            "C14_recovery_listing_fails_closed", "C14_batched_guard_complete", "C14_healthy_ok",
             "C14_fail_closed_full_refuted"]
 REQ = ["DS.Gen.GenRead", "DS.Model.Read"]
 KNOWN_KEY = "current-metadata-file-deleted-serves-previous-version"
